@@ -21,7 +21,7 @@ def step (ws : List String) : String :=
           match d, base with
           | [dv], [bv] => if bv.abs > sp then Float.sqrt ((dv / bv) * (dv / bv)) else 0.0
           | _, _ => 0.0 }
-    match daeIc floatO or [1] 1e-6 (1e-5 * rtol) (1e-3 * rtol) [x0, z0] with
+    match daeIc floatO or [1] 1e-6 (if 1e-5 * rtol < 1e-6 then 1e-5 * rtol else 1e-6) (1e-3 * rtol) [x0, z0] with
     | .error e => "err " ++ toString e
     | .ok (y, ex) => s!"ok {repr ex} " ++ showFloats y
   | _, _ => "bad-op"
